@@ -58,8 +58,13 @@ PROPS = {
              'The parse is performed by PLY\'s generated LALR automaton from grammar docstrings and a precedence table; no contract can be '
              'attached to that automaton, so precedence/associativity are not provable with this technique. Decided by the bounded '
              'stand-in: an independent precedence-climbing reader written from doc.md evaluates every generated formula on truth tables '
-             '(all operator pairs/triples, binders, comments, @n, constants, two managers with failing parses, to_expr round trips).',
-             proof=False, bounded=['vlib.rtc.c05'], tb=['PLY LALR engine and generated tables: outside any contract'],
+             '(all operator pairs/triples, binders, comments, @n, constants, two managers with failing parses, to_expr round trips). '
+             'Proved (small but mutation-relevant): each of 14 grammar actions stores in p[0] the operator application with the operands '
+             'in the documented roles (binary: operator p[2] on p[1], p[3]; ite argument order; quantifier and rename binders; '
+             'substitution pairs stored as (old, new); list building).',
+             bounded=['vlib.rtc.c05'], tb=['PLY LALR engine and generated tables: outside any contract',
+                                         'grammar actions are proved against an abstract _apply/_add_* (uninterpreted constructors); '
+                                         '_Translator._apply, the lexer and the precedence table are bounded only'],
              design_ref='DESIGN.md 7/C05'),
     'C06': P('other',
              'The count invariant RC (ref = stored in-edges + external references, ghost in-degree updated by the engine at node creation) '
@@ -101,8 +106,11 @@ PROPS = {
              bounded=['vlib.rtc.c09'], tb=['reorder()/swap contract assumed (C07 bounded)'], design_ref='DESIGN.md 7/C09'),
     'C10': P('exploration',
              'Model counting (2**gap arithmetic), generator pipelines (pick_iter/_sat_iter) and the support traversal are outside the '
-             'generator. is_essential is proved against ghost family HASLVL (a node at the variable\'s level is reachable; = "depends on" '
-             'by lemma L-ESS). Everything else: run-time contracts, all functions of 3 variables with 0-2 unused variables, all orders.',
+             'generator. Proved against ghost family HASLVL (a node at the variable\'s level is reachable; = "depends on" by lemma L-ESS): '
+             'is_essential, and support/_support (for an arbitrary level: it is in the result iff reachable; visited-set pruning and '
+             'the early exit when every level is present, the latter with an ASSUMED pigeonhole fact about set cardinality). '
+             'count, pick, pick_iter: run-time contracts, all functions of 3 variables with 0-2 unused variables, all orders, and '
+             'managers of 10-14 variables.',
              bounded=['vlib.rtc.c10'], design_ref='DESIGN.md 7/C10'),
     'C11': P('proof',
              'dd.bdd._copy_bdd with two distinct managers, copy_bdd and BDD.copy are proved: result in the target denotes the source function '
